@@ -181,3 +181,28 @@ Proof.
   destruct scenarios_after_stop_needs_steps as (H1 & H2). cbv zeta. rewrite H2, H1. intros Hc. inversion Hc as [|? Hc']. inversion Hc'.
 Qed.
 Print Assumptions C12_stateful_scenarios_after_stop_needs_steps.
+
+(* ---- the configured Hypothesis settings reach the test (ModelH_C12: create_test's settings merge) ----
+   Whatever Hypothesis profile is loaded, every configured setting other than the deadline - max_examples and
+   stateful_step_count in particular - is the one the test runs with. *)
+From Verif Require Import C12.ModelH_C12 C12.ProofsH_C12.
+
+Theorem C12_configured_setting_takes_effect : forall active stock config k,
+  k <> K_DEADLINE -> effective ActiveProfile active stock config k = config k.
+Proof. exact configured_setting_takes_effect. Qed.
+Print Assumptions C12_configured_setting_takes_effect.
+
+Theorem C12_configured_deadline : forall active stock config,
+  effective ActiveProfile active stock config K_DEADLINE =
+  if Nat.eqb (config K_DEADLINE) (active K_DEADLINE) then DEFAULT_DEADLINE else config K_DEADLINE.
+Proof. exact configured_deadline. Qed.
+Print Assumptions C12_configured_deadline.
+
+(* sentinel: comparing with the stock profile instead of the active one loses a configured max_examples = 100 *)
+Theorem C12_stock_baseline_refuted : exists active stock config,
+  effective StockProfile active stock config K_MAX_EXAMPLES <> config K_MAX_EXAMPLES.
+Proof.
+  exists (of_list [240; 200; 50; 0]), (of_list [100; 200; 50; 0]), (of_list [100; 200; 50; 0]).
+  destruct stock_baseline_drops_configured_value as [H1 H2]. rewrite H1, H2. discriminate.
+Qed.
+Print Assumptions C12_stock_baseline_refuted.
